@@ -821,6 +821,39 @@ def run_rtc_py(job, src_dir, count=12, seed=0, extra_inputs=()):
         if not cases:
             out["inapplicable"] = "no input satisfying the requires found in the small scope"
             return out
+        if getattr(c, "rtc_py", False):
+            # near ties: pairs of float inputs that differ by a few ulps / 1e-6 relative (a mirrored entry of a matrix, a
+            # scalar next to an element).  Code that compares with a tolerance (isclose / allclose / rounding) where the
+            # property states a strict comparison is exposed by exactly these inputs.
+            rng = random.Random(seed + 13)
+            extra = []
+            for c0 in cases[:8]:
+                c1 = {k: (v.copy() if isinstance(v, np.ndarray) else v) for k, v in c0.items()}
+                farrs = [k for k, v in c1.items() if isinstance(v, np.ndarray) and v.dtype.kind == "f" and v.size >= 2]
+                fsc = [k for k, v in c1.items() if isinstance(v, float)]
+                if not farrs:
+                    continue
+                a = c1[rng.choice(farrs)]
+                rel = rng.choice([1e-6, 3e-6, -1e-6, 2e-7])
+                if a.ndim == 2 and a.shape[0] == a.shape[1] and a.shape[0] >= 2:
+                    # make the matrix symmetric up to one near-tied mirrored pair
+                    a[:] = np.triu(a) + np.triu(a, 1).T
+                    i, j = rng.sample(range(a.shape[0]), 2)
+                    base = a[i, j] if a[i, j] != 0 else 1.0
+                    a[i, j] = base
+                    a[j, i] = base * (1 + rel)
+                    if fsc:
+                        c1[rng.choice(fsc)] = float(base) * (1 + rel / 2)      # scalar between the two
+                else:
+                    flat = a.reshape(-1)
+                    i, j = rng.sample(range(flat.size), 2)
+                    base = flat[i] if flat[i] != 0 else 1.0
+                    flat[i] = base
+                    flat[j] = base * (1 + rel)
+                    if fsc:
+                        c1[rng.choice(fsc)] = float(base) * (1 + rel / 2)
+                extra.append(c1)
+            cases = cases + extra
         stubs = {}
         for fn, facts in c.call_facts.items():
             for e in facts.get("ensures", []):
